@@ -50,6 +50,21 @@ let () =
       seen_distinct ("s" ^ gp ^ "|" ^ element);
       let m = str_path_msg p el in
       if hex_of m <> text then mismatch id (Printf.sprintf "StrPath elems=%s element=%s model=%s impl=%s" gp element (hex_of m) text)
+    | [ "path.det"; id; gp; texts ] ->
+      stat "path.det";
+      let p = dec_gpath gp in
+      seen_distinct ("d" ^ gp);
+      let ts = unhex_list texts in
+      if List.exists (fun e -> List.length e.e_keys >= 3) p then stat "det.three_keys";
+      (* the text of one gNMI path is the same at every conversion *)
+      if List.length ts <> 1 then
+        specviol id "c16_text_not_deterministic"
+          (Printf.sprintf "path %s was rendered as %s in repeated conversions" gp
+             (String.concat " and " (List.map (fun t -> Printf.sprintf "%S" (show_str t)) ts)));
+      List.iter (fun t -> if t <> str_path p then mismatch id (Printf.sprintf "StrPath elems=%s model=%S impl=%S" gp (show_str (str_path p)) (show_str t))) ts
+    | [ "path.unexpected"; id; domain; input; what ] ->
+      stat "path.unexpected";
+      specviol id "c16_unexpected_answer" (Printf.sprintf "observation %s on input %s could not be completed: %s" domain input (show_str (unhex what)))
     | [ "path.rt"; id; gp; text; parsed; parent; inittext ] ->
       stat "path.rt";
       let p = dec_gpath gp in
@@ -133,6 +148,7 @@ let () =
       let exp = if not matches then "nomatch" else (match m with ROk p -> "ok:" ^ enc_gpath p | RErr _ -> "err" | RPanic -> "panic" | RFuel -> "fuel") in
       let got = if starts_with result "err:" then "err" else result in
       if starts_with result "ok" then stat "cu.ok" else stat ("cu." ^ result);
+      if starts_with result "unexpected:" then specviol id "c16_unexpected_answer" (Printf.sprintf "stored path %S: %s" (show_str t) result);
       if exp <> got then mismatch id (Printf.sprintf "Get PROTO of stored path %S model=%s impl=%s" (show_str t) exp result);
       (* both re-parsers agree on what the Set handler accepts *)
       (match parse_path t with
